@@ -1,5 +1,5 @@
 //! stream `ints` (C11): every integer encoder / decoder of the repository
-use crate::util::*;
+use vh::util::*;
 use chia_consensus::make_aggsig_final_message::u64_to_bytes;
 use chia_consensus::sanitize_int::{sanitize_uint, SanitizedUint};
 use chia_consensus::solution_generator::calculate_generator_length;
@@ -25,7 +25,7 @@ fn decn<const LEN: usize>(atom: &[u8], signed: bool) -> String {
     }
 }
 
-pub fn run(name: &str, args: &[String]) -> Option<String> {
+fn run(name: &str, args: &[String]) -> Option<String> {
     match name {
         "ints.u64" => {
             let parent = b32(&args[0]);
@@ -49,6 +49,51 @@ pub fn run(name: &str, args: &[String]) -> Option<String> {
                 glen,
                 ser.len()
             ))
+        }
+        "ints.sweep" => {
+            // exhaustive range check on the implementation against an independent minimal encoding
+            let lo = dec(&args[0]);
+            let hi = dec(&args[1]);
+            let parent = [0xab_u8; 32];
+            let ph = [0xcd_u8; 32];
+            let mut a = Allocator::new();
+            for v in lo..hi {
+                let be = v.to_be_bytes();
+                let mut i = 0;
+                while i < 8 && be[i] == 0 {
+                    i += 1;
+                }
+                let mut want: Vec<u8> = Vec::new();
+                if i < 8 && (be[i] & 0x80) != 0 {
+                    want.push(0);
+                }
+                want.extend_from_slice(&be[i..]);
+                if u64_to_bytes(v) != want {
+                    return Some(format!("FAIL u64_to_bytes {}", v));
+                }
+                if encode_number(&be, false) != want {
+                    return Some(format!("FAIL encode_number {}", v));
+                }
+                if (v & 0xfff) == 0 || (v & v.wrapping_sub(1)) == 0 || (v & v.wrapping_add(1)) == 0 {
+                    // coin id and allocator form at every 4096th value and at every 2^k, 2^k-1
+                    let mut h = chia_sha2::Sha256::new();
+                    h.update(parent);
+                    h.update(ph);
+                    h.update(&want);
+                    let id: [u8; 32] = h.finalize();
+                    let coin = Coin::new(Bytes32::new(parent), Bytes32::new(ph), v);
+                    if coin.coin_id().as_ref() != id {
+                        return Some(format!("FAIL coin_id {}", v));
+                    }
+                    let cp = a.checkpoint();
+                    let num = a.new_number(v.into()).unwrap();
+                    if a.atom(num).as_ref() != want.as_slice() {
+                        return Some(format!("FAIL new_number {}", v));
+                    }
+                    a.restore_checkpoint(&cp);
+                }
+            }
+            Some("OK".into())
         }
         "ints.san" => {
             let mut a = Allocator::new();
@@ -76,4 +121,8 @@ pub fn run(name: &str, args: &[String]) -> Option<String> {
         }
         _ => None,
     }
+}
+
+fn main() {
+    vh::serve(run);
 }
